@@ -191,6 +191,7 @@ add_env_cells = worlds.add_env_cells
 def gen_soak(rng, seed, tier):
     world = worlds.gen_world(rng, n_formulas=rng.randint(2, 7), stale=False,
                              userfuncs=False)
+    worlds.add_env_cells(rng, world)
     formulas = [a for a in world['order'] if world['level'][a] > 0]
     if rng.random() < 0.4:
         # a cell whose evaluation raises (Python-level failure) every round,
